@@ -158,6 +158,23 @@ def collect (d : Bits) : Nat → Nat → Except Panic (List Nat)
 /-- `b.iter_bits().collect()` (`BitsIter::new` starts at `idx = 0`). -/
 def iterBits (d : Bits) : Except Panic (List Nat) := collect d (d.length * 64 + 1) 0
 
+/-- `for _ in 0..k { it.next(); }` from iterator position `idx`: the position afterwards
+    (a call that returns `None` leaves the position where the loop stopped, as in the code). -/
+def advance (d : Bits) : Nat → Nat → Except Panic Nat
+  | 0, idx => .ok idx
+  | k + 1, idx =>
+    match next d idx with
+    | .error e => .error e
+    | .ok (_, idx') => advance d k idx'
+
+/-- What a `BitsIter` still yields after `k` calls of `next`: `it.collect()` on the advanced iterator.
+    Every provided `Iterator` method the harness applies to an advanced iterator (`count`, `last`,
+    `nth`, `by_ref`, `peekable`, `skip`, `size_hint`) is, by its std contract, a function of this list. -/
+def restAfter (d : Bits) (k : Nat) : Except Panic (List Nat) :=
+  match advance d k 0 with
+  | .error e => .error e
+  | .ok idx => collect d (d.length * 64 + 1) idx
+
 /-- `(self.test(i) as i32).to_string()`. -/
 def digit (t : Bool) : String := if t then "1" else "0"
 
@@ -312,14 +329,24 @@ def run (n : Nat) (s : St) : List Op → Except Panic St
     | .error e => .error e
     | .ok s' => run n s' ops
 
+/-- One iterator probe: `k` elements were taken with `next`; `rest` is what the iterator yields afterwards. -/
+structure Probe where
+  k : Nat
+  rest : List Nat
+  deriving Repr, DecidableEq
+
+/-- the prefix lengths probed for a set with `l` members: 0, 1, 2 and `l - 1` (those that are `≤ l`). -/
+def probeKs (l : Nat) : List Nat := ([0, 1, 2, l - 1].filter (· ≤ l)).eraseDups
+
 /-- What the harness observes of one bitset: `test` on every index, `count`, the collected
-    `iter_bits`, the `Display` and the `Debug` rendering. -/
+    `iter_bits`, the `Display` and the `Debug` rendering, and the iterator probes. -/
 structure RegObs where
   tests : List Bool
   count : Nat
   iter : List Nat
   disp : String
   dbg : String
+  probes : List Probe
   deriving Repr, DecidableEq
 
 def observeReg (n : Nat) (b : Bits) : Except Panic RegObs :=
@@ -337,7 +364,10 @@ def observeReg (n : Nat) (b : Bits) : Except Panic RegObs :=
         | .ok ds =>
           match debug b with
           | .error e => .error e
-          | .ok dg => .ok ⟨ts, c, it, ds, dg⟩
+          | .ok dg =>
+            match (probeKs it.length).mapM (fun k => (restAfter b k).map (Probe.mk k)) with
+            | .error e => .error e
+            | .ok ps => .ok ⟨ts, c, it, ds, dg, ps⟩
 
 /-- Final observation of a history: every register, the `==` matrix, the `test` log. -/
 structure Obs where
@@ -388,7 +418,7 @@ def specRun (s : SpecSt) (ops : List Op) : SpecSt := ops.foldl specStep s
 def specObserveReg (n : Nat) (m : Spec) : RegObs :=
   let ms := Spec.members (64 * n) m
   let d := Spec.display (64 * n) m
-  ⟨Spec.table (64 * n) m, ms.length, ms, d, d⟩
+  ⟨Spec.table (64 * n) m, ms.length, ms, d, d, (probeKs ms.length).map (fun k => ⟨k, ms.drop k⟩)⟩
 
 def specObserve (n : Nat) (s : SpecSt) : Obs :=
   let tabs := s.regs.map (Spec.table (64 * n))     -- each characteristic vector is computed once
@@ -463,9 +493,29 @@ def markAsc : Nat → Nat → List Nat → List Bool
 def showIter (n : Nat) (l : List Nat) : String :=
   if isAscBelow n 0 l then "^" ++ String.ofList (packHex (markAsc 0 n l)) else showNats l
 
+def showOptNat : Option Nat → String
+  | none => "-"
+  | some x => toString x
+
+/-- the `nth` arguments probed on an iterator with `rem` remaining elements -/
+def probeJs (rem : Nat) : List Nat := [0, 1, rem - 1, rem].eraseDups
+
+/-- One probe as the harness prints it.  With `rest` the remaining elements: `count()` is its length,
+    `last()` its last element, `nth(j)` its `j`-th element leaving `rem - (j+1)` behind (`by_ref().count()`),
+    `peekable().peek()` its head (and `count()` still the full length), `skip(k).count()` on a fresh
+    iterator the same length, and `size_hint` must bracket the length (`h=ok`). -/
+def showProbe (n : Nat) (p : Probe) : String :=
+  let rem := p.rest.length
+  "k=" ++ toString p.k ++ ":c=" ++ toString rem ++ ":l=" ++ showOptNat p.rest.getLast? ++
+  ":r=" ++ showIter n p.rest ++
+  ":n=" ++ "/".intercalate ((probeJs rem).map (fun j =>
+      toString j ++ ">" ++ showOptNat p.rest[j]? ++ ">" ++ toString (rem - (j + 1)))) ++
+  ":p=" ++ showOptNat p.rest.head? ++ ">" ++ toString rem ++ ":s=" ++ toString rem ++ ":h=ok"
+
 def showRegObs (n : Nat) (o : RegObs) : String :=
   "t=" ++ String.ofList (packHex o.tests) ++ ",c=" ++ toString o.count ++ ",i=" ++ showIter (64 * n) o.iter ++
-  ",d=" ++ o.disp ++ ",g=" ++ (if o.dbg = o.disp then "same" else o.dbg)
+  ",d=" ++ o.disp ++ ",g=" ++ (if o.dbg = o.disp then "same" else o.dbg) ++
+  ",it=" ++ "+".intercalate (o.probes.map (showProbe (64 * n)))
 
 def showObs (n : Nat) (o : Obs) : String :=
   " ".intercalate (o.regs.map (showRegObs n)) ++ " eq=" ++ "/".intercalate (o.eqs.map showBits01) ++
